@@ -227,7 +227,7 @@ def run(F, R, tier):
     S = sympath.Sym(F, ["azure_proxy_agent", "proxy_agent_shared"])
     bad = []
     n_rm = 0
-    for fid, fn in F.fns.items():
+    for fid, fn in S.F.fns.items():
         if fn["crate"] != "azure_proxy_agent":
             continue
         for b in fn["blocks"]:
